@@ -31,7 +31,9 @@ second one the result file):
 
 ``Sandbox`` owns the per-case scratch directory (``bin/`` first on PATH, ``tmp/`` as
 TMPDIR and ``tempfile.tempdir``, ``cap/`` for the captures) and restores the process
-state when closed.
+state when closed.  The names of bin/ and tmp/ (blanks, quotes, non-ASCII, leading
+dash), the way the temporary directory is announced and further PATH directories are
+options of the constructor; programs can be installed and removed while it is open.
 """
 import os
 import random
@@ -326,27 +328,66 @@ def script_text(behaviour, capdir, verdict, model, shape, n):
 class Sandbox:
     """Scratch directory + process state for one case.  Use as a context manager."""
 
-    def __init__(self):
+    TMP_VIA = ('both', 'tempdir', 'TMPDIR', 'TEMP')
+    _ENV_KEYS = ('PATH', 'TMPDIR', 'TEMP', 'TMP')
+
+    def __init__(self, bin_path=('bin',), tmp_path=('tmp',), tmp_via='both', extra_bins=0):
+        """bin_path / tmp_path: path components (below the scratch root) of the first
+        PATH entry and of the directory for temporary files; they may contain blanks,
+        quotes, non-ASCII characters, a leading dash (no '/', no ':' , no NUL/newline).
+        tmp_via: how the temporary directory is announced to the process: 'both'
+        (TMPDIR and tempfile.tempdir), 'tempdir' (tempfile.tempdir only), 'TMPDIR'
+        (environment only, tempfile.tempdir reset so that it is looked up again),
+        'TEMP' (environment variable TEMP, TMPDIR unset).
+        extra_bins: number of further (plain) directories put on PATH after bin/."""
         self.root = None
         self._saved = None
+        for comp in tuple(bin_path) + tuple(tmp_path):
+            if not comp or comp in ('.', '..') or any(ch in comp for ch in '/\0\n'):
+                raise ValueError("bad path component {!r}".format(comp))
+        if any(os.pathsep in comp for comp in bin_path):
+            raise ValueError("PATH entries cannot contain {!r}".format(os.pathsep))
+        if tmp_via not in self.TMP_VIA:
+            raise ValueError(tmp_via)
+        self._bin_path = tuple(bin_path)
+        self._tmp_path = tuple(tmp_path)
+        self._tmp_via = tmp_via
+        self._extra_bins = int(extra_bins)
 
     def __enter__(self):
         self.root = tempfile.mkdtemp(prefix='c20-', dir=_BASE_TMP)
-        self.bin = os.path.join(self.root, 'bin')
-        self.tmp = os.path.join(self.root, 'tmp')
-        self.cap = os.path.join(self.root, 'cap')
-        for d in (self.bin, self.tmp, self.cap):
-            os.mkdir(d)
-        self._saved = (os.environ.get('PATH'), os.environ.get('TMPDIR'), tempfile.tempdir)
-        os.environ['PATH'] = os.pathsep.join([self.bin] + _clean_path_tail())
-        os.environ['TMPDIR'] = self.tmp
-        tempfile.tempdir = self.tmp
-        self._scripts = {}
+        self._saved = (dict((k, os.environ.get(k)) for k in self._ENV_KEYS), tempfile.tempdir)
+        try:
+            self.bin = os.path.join(self.root, 'B', *self._bin_path)
+            self.tmp = os.path.join(self.root, 'T', *self._tmp_path)
+            self.cap = os.path.join(self.root, 'cap')
+            self.bins = [self.bin] + [os.path.join(self.root, 'bin{}'.format(i + 2))
+                                      for i in range(self._extra_bins)]
+            for d in self.bins + [self.tmp, self.cap]:
+                os.makedirs(d)
+            os.environ['PATH'] = os.pathsep.join(self.bins + _clean_path_tail())
+            via = self._tmp_via
+            if via == 'both':
+                os.environ['TMPDIR'] = self.tmp
+                tempfile.tempdir = self.tmp
+            elif via == 'tempdir':
+                tempfile.tempdir = self.tmp
+            elif via == 'TMPDIR':
+                os.environ['TMPDIR'] = self.tmp
+                tempfile.tempdir = None
+            else:
+                os.environ.pop('TMPDIR', None)
+                os.environ['TEMP'] = self.tmp
+                tempfile.tempdir = None
+            self._scripts = {}
+        except BaseException:
+            self.__exit__(None, None, None)
+            raise
         return self
 
     def __exit__(self, *exc):
-        path, tmpdir, tdir = self._saved
-        for k, v in (('PATH', path), ('TMPDIR', tmpdir)):
+        env, tdir = self._saved
+        for k, v in env.items():
             if v is None:
                 os.environ.pop(k, None)
             else:
@@ -356,11 +397,14 @@ class Sandbox:
         return False
 
     # -- installing programs
-    def install(self, name, behaviour, state, verdict, model, shape, n):
-        """Put a program called `name` in bin/.  state: 'ok' (working fake solver),
+    def install(self, name, behaviour, state, verdict, model, shape, n, where=0):
+        """Put a program called `name` in bin/ (or in the where-th directory of PATH),
+        replacing what is there under that name.  state: 'ok' (working fake solver),
         'noexec' (present, no execute permission), 'badformat' (executable file that
         the kernel cannot run)."""
-        dest = os.path.join(self.bin, name)
+        dest = os.path.join(self.bins[where], name)
+        if os.path.lexists(dest):
+            os.unlink(dest)
         if state == 'ok':
             key = behaviour
             src = self._scripts.get(key)
@@ -381,6 +425,15 @@ class Sandbox:
             os.chmod(dest, 0o755)
         else:
             raise ValueError(state)
+
+    def remove(self, name, where=0):
+        """Remove the program called `name` from the where-th directory of PATH;
+        returns False when there is none."""
+        dest = os.path.join(self.bins[where], name)
+        if not os.path.lexists(dest):
+            return False
+        os.unlink(dest)
+        return True
 
     # -- observing
     def collect(self):
